@@ -75,7 +75,8 @@ template <class M, size_t... K> auto callMap(const M& m, const std::vector<long 
 template <class M> auto callMap(const M& m, const std::vector<long long>& a) { return callMap(m, a, std::make_index_sequence<M::extents_type::rank()>()); }
 
 inline sigjmp_buf& jb() { static sigjmp_buf b; return b; }
-inline void onTrap(int) { siglongjmp(jb(), 1); }
+inline int& lastSig() { static int s = 0; return s; }
+inline void onTrap(int sig) { lastSig() = sig; siglongjmp(jb(), 1); }
 
 inline Op parseLine(const std::string& line) {
   Op o; std::stringstream ss(line); std::string t;
@@ -104,7 +105,7 @@ inline std::string keyOf(const Op& o) {
 
 inline int serve() {
   struct sigaction sa{}; sa.sa_handler = onTrap; sigemptyset(&sa.sa_mask); sa.sa_flags = SA_NODEFER;
-  sigaction(SIGILL, &sa, nullptr); sigaction(SIGFPE, &sa, nullptr); sigaction(SIGTRAP, &sa, nullptr);
+  sigaction(SIGILL, &sa, nullptr); sigaction(SIGFPE, &sa, nullptr); sigaction(SIGTRAP, &sa, nullptr); sigaction(SIGSEGV, &sa, nullptr); sigaction(SIGBUS, &sa, nullptr);
   std::string line;
   std::ios::sync_with_stdio(false);
   while (std::getline(std::cin, line)) {
@@ -113,7 +114,7 @@ inline int serve() {
     auto it = registry().find(keyOf(o));
     if (it == registry().end()) { puts("no-inst"); continue; }
     if (sigsetjmp(jb(), 1) == 0) { std::string r = it->second(o); puts(r.c_str()); }
-    else puts("ub");
+    else puts((lastSig() == SIGSEGV || lastSig() == SIGBUS) ? "segv" : "ub");
   }
   fflush(stdout);
   return 0;
